@@ -191,3 +191,30 @@ func VfC20_Handler() {
 	}
 	vfCover("end")
 }
+
+// two responses served one after the other by one handler in one process: each response's headers
+// must be computed from that response alone (state kept between requests must not leak in)
+func VfC20_TwoResponses() {
+	w := vfNewWorld()
+	w.now = vfTime("now")
+	w.authed = true
+	h := NewActivityStreamsHandler(&vfDB{w: w}, &vfClock{w: w})
+	for i := 0; i < 2; i++ {
+		u := vfURL("served")
+		n := streams.NewActivityStreamsNote()
+		idp := streams.NewJSONLDIdProperty()
+		idp.Set(u)
+		n.SetJSONLDId(idp)
+		cp := streams.NewActivityStreamsContentProperty()
+		cp.AppendXMLSchemaString(vfString("content"))
+		n.SetActivityStreamsContent(cp)
+		w.store = []vfStored{{id: u.String(), val: n}}
+		rw := vfNewWriter(w)
+		handled, err := h(vfCtx(), rw, vfRequest("GET", "", vfCT, u, nil))
+		vfAssert(handled && err == nil, "stored-value-not-served")
+		if handled && err == nil {
+			vfC20Headers(w, rw)
+		}
+	}
+	vfCover("end")
+}
